@@ -390,13 +390,15 @@ def side_channel(rec, events):
 
 
 def run_ops(ops):
-    """Execute a sequence of compile operations in this process, one record each."""
+    """Execute a sequence of compile operations in this process, one record each.
+    The CPU time is reported as a fixed-width string: a record whose length depended on a
+    measured time would make the allocation pattern (and so the heap layout) depend on timing."""
     import time
     for j, (prog, target, level) in enumerate(ops):
         c0 = time.process_time()
         rec, events = compile_op(prog, target, level)
-        rec.update({"j": j, "prog": prog, "target": target, "level": level,
-                    "cpu": round(time.process_time() - c0, 3)})
+        ms = min(999999, int((time.process_time() - c0) * 1000))
+        rec.update({"j": j, "prog": prog, "target": target, "level": level, "cpu": "%06d" % ms})
         emit(rec)
         side_channel(rec, events)
         del events, rec
